@@ -22,6 +22,8 @@ type relay struct {
 	hold  bool
 	conns map[*rconn]struct{}
 	done  bool
+
+	answered int // answer chunks of the monitor seen by this relay (= answered polls, one chunk each)
 }
 
 type chunk struct {
@@ -122,6 +124,7 @@ func (r *relay) down(rc *rconn) {
 		if n > 0 {
 			relayAnswers.Add(1)
 			r.mu.Lock()
+			r.answered++
 			rc.pending = append(rc.pending, chunk{buf[:n], time.Now()})
 			r.mu.Unlock()
 			r.cond.Broadcast()
@@ -233,4 +236,10 @@ func (r *relay) close() {
 	r.mu.Unlock()
 	r.l.Close()
 	r.cut()
+}
+
+func (r *relay) answeredPolls() int {
+	r.mu.Lock()
+	defer r.mu.Unlock()
+	return r.answered
 }
